@@ -360,6 +360,18 @@ def run_shard(shard: Dict[str, Any], rep: Report) -> None:
             bad = tree_diff(_canon(dec_pair(es, et)), _canon(dec_pair(s, t)), **tol)
             if bad:
                 viol("eager_reset_equals_jit", {"fields": bad[:6], "key": kint})
+            # a result handed out earlier must not be touched by a later call (hidden shared objects)
+            snap_first = snapshot((es, et))
+            es_b, et_b = env.reset(jax.random.PRNGKey((kint + 12345) % (2**31 - 1)))
+            rep.evaluated(1)
+            rep.count("earlier_result_snapshots")
+            diffs = snapshot_diff(snap_first, snapshot((es, et)))
+            if diffs:
+                viol("earlier_result_mutated_by_later_call", {"call": "reset(k1); reset(k2)", "changes": diffs[:6]})
+            es_c, et_c = env.reset(key)
+            bad = tree_diff(_canon(dec_pair(es_c, et_c)), _canon(dec_pair(s, t)), **tol)
+            if bad:
+                viol("history_independence", {"call": "eager reset repeated after another eager reset", "fields": bad[:6]})
         except Exception as e:
             viol("eager_reset_raises", {"error": repr(e)[:300]})
             es = None
@@ -394,6 +406,26 @@ def run_shard(shard: Dict[str, Any], rep: Report) -> None:
                 if int(np.asarray(nt.step_type)) == 2:
                     break
                 cur, chain_ts = ns, nt
+            # the same with writable NumPy copies of the state (host copies / restored checkpoints): an in-place
+            # update would go through to the caller's buffers. Environments that do not accept NumPy leaves at all
+            # are only counted.
+            for (s0, a, tag, kint2) in calls[:: max(1, len(calls) // 2)][:2]:
+                np_state = jax.tree_util.tree_map(lambda x: np.array(x), s0)
+                snap = snapshot(np_state)
+                try:
+                    ns, nt = env.step(np_state, A.as_action(runner.spec, a))
+                except Exception:
+                    rep.count("numpy_state_not_accepted")
+                    continue
+                rep.evaluated(2)
+                rep.count("numpy_state_snapshots")
+                diffs = snapshot_diff(snap, snapshot(np_state))
+                if diffs:
+                    viol("argument_mutated", {"call": tag + " (NumPy-leaf state)", "changes": diffs[:6]}, qualifier="numpy_state;" + ";".join(sorted({d.split(":")[0] for d in diffs}))[:60])
+                js, jt = runner.step(s0, a)
+                bad = tree_diff(_canon(dec_pair(ns, nt)), _canon(dec_pair(js, jt)), **tol)
+                if bad:
+                    viol("eager_step_equals_jit", {"fields": bad[:6], "call": tag + " (NumPy-leaf state)"})
             for (s0, a, tag, kint2) in calls[:: max(1, len(calls) // 3)][:3]:
                 snap = snapshot(s0)
                 try:
